@@ -82,6 +82,39 @@ def ofAVal : AVal → Val
   | .o r => .o r
   | .h bs => .h (bs.map UInt8.toNat)
 
+/-- the string routine `bid128_from_string_clear_status` as the code-shaped models of the scanner and the numeric phase predict it
+(`DecModel/Scan.lean`, `ScanNum.lean`; `C04ScanNum.fromStringCode_correct`): the parameter the translated text glue is run over -/
+def csModel (s : String) (m : Dec.Rs.RoundingMode) (f : UInt32) : Except String (Dec.Rs.U128 × UInt32) :=
+  let mode : Mode := match m with
+    | .NearestEven => .rne | .Downward => .rdn | .Upward => .rup | .TowardZero => .rtz | .NearestAway => .rna
+  match fromStringCodeBits mode (s.toUTF8.toList.map UInt8.toNat) with
+  | some (some (bits, fl)) => .ok (⟨UInt64.ofNat (bits % 2 ^ 64), UInt64.ofNat (bits / 2 ^ 64)⟩, f ||| UInt32.ofNat fl)
+  | some none => .error "the scanner / numeric-phase model predicts a panic"
+  | none => .error "not UTF-8"
+
+/-- the text entry points (`convert_from_decimal_character`, `FromStr`, `From<&str>`, `nan`): the translated glue of d128.rs /
+bid128_string.rs / bid128_noncomp.rs (`DecGen/Code3.lean`, `Api3.run3s`) run over `csModel` -/
+def judgeText (modeTok : String) (o : Obs) (t : Bytes) : Option String :=
+  match String.fromUTF8? (ByteArray.mk (t.map UInt8.ofNat).toArray) with
+  | none => none
+  | some text =>
+    let omode : Option Dec.Rs.RoundingMode := if modeTok == "-" || modeTok == "N" then none else some (HkGen.rmode o.mode)
+    match Dec.Gen.Api3.run3s csModel o.op omode (UInt32.ofNat o.flagsIn) text with
+    | none => none
+    | some (.error why) =>
+      (match o.out with
+       | none => some "ok api-panic-agrees"
+       | some _ => some ("corr translated-code predicts a panic (" ++ why ++ "), the compiled text glue returned"))
+    | some (.ok (r, fl)) =>
+      (match o.out with
+       | none => some "corr translated-code returns, the compiled text glue panicked"
+       | some (rv, rf) =>
+         let v : Val := match r with
+           | .d x => .d (x.w0.toNat + 2 ^ 64 * x.w1.toNat)
+           | .err e => .err e.toNat
+         if rv == [v] && rf == fl.toNat then some "ok api-translated"
+         else some ("corr translated-code (text glue over the scanner model) predicts " ++ showVal v ++ " " ++ String.ofList (Nat.toDigits 16 fl.toNat)))
+
 def judgeApi (modeTok : String) (o : Obs) : String :=
   let mode := if modeTok == "-" || modeTok == "N" then Dec.Gen.Api.defaultMode else HkGen.rmode o.mode
   let args := o.args.foldr (fun a acc => match toAVal a, acc with
@@ -104,6 +137,12 @@ def judgeApi (modeTok : String) (o : Obs) : String :=
        | some none, some _ => some "corr binconv-model predicts a panic, the compiled routine returned"
        | _, _ => none)
     | _ => none
+  let text? : Option String := match o.args with
+    | [.s t] => judgeText modeTok o t
+    | _ => none
+  match text? with
+  | some why => why
+  | none =>
   match hand? with
   | some why => why
   | none =>
